@@ -88,13 +88,15 @@ def reduce_cases(ctx, n):
         is_cont = [is_cont[k] for k in order]
         sizes = [rng.choice([2, 3]) for _ in range(nd)]
         nrows = rng.randint(1, 5)
+        sparse_choice = rng.random() < 0.6      # otherwise: restricted states only, one row per admitted state
         shape = ([nrows] if has_rows else []) + sizes
         size = 1
         for s in shape:
             size *= s
         cases.append({"fn": "reduce", "kind": "get_solve_discrete_problem", "shape": shape,
                       "cc": [q(rng.randint(-3, 3)) for _ in range(size)], "has_rows": has_rows, "is_choice": is_choice,
-                      "is_cont": is_cont, "lens": compositions(rng, nrows) if has_rows else [],
+                      "is_cont": is_cont, "lens": (compositions(rng, nrows) if sparse_choice else [1] * nrows) if has_rows else [],
+                      "sparse_choice": sparse_choice,
                       "is_last": rng.random() < 0.3, "mode": "jit" if i % 3 == 0 else "eager", "tol": EXACT})
     return cases
 
